@@ -8,6 +8,10 @@ Clauses
                in-range notes accepted, out-of-range notes refused with InstrumentRangeError
   chords       from_chords on every (start fill, chord list, value, meter) of a product space: every
                leaf in order, total length, splitting at bar lines
+  spelling     every NAMES(2) spelling x octave 0..10 x instrument x content form: accepted iff the
+               *pitch* lies in the instrument's range (range ends reached by B#/Cb-type spellings)
+  fill         i x a then b, b, ... over the value vocabulary through add_notes, two bars deep: bars
+               open exactly when the model's last bar is full, all bars but the last full
   composition  bfs over add_track / '+' / add_note / selected_tracks on a real Composition
 Track and composition equality is a differential oracle evaluated in every reached state: the object
 compares equal to one rebuilt independently from the model state and unequal to perturbed rebuilds.
@@ -681,6 +685,126 @@ def gen_chords(shard):
 
 
 # ---------------------------------------------------------------------------------------
+# (v) range gate over every spelling: a note is judged by its *pitch*, however it is spelled
+# ---------------------------------------------------------------------------------------
+from mc.ref import pitch as P
+
+SPELL_FORMS = ["text", "note", "nc", "pair_with_E4"]
+
+
+def run_spelling(case):
+    """case = [instrument, name, octave]: every NAMES(2) spelling x octave 0..10, through four content forms."""
+    S = engine.S
+    iname, name, octv = case
+    pitch = P.note_int(name, octv)
+    if pitch < 0:
+        S.count("spelling_negative_pitch_skipped")
+        return
+    for form in SPELL_FORMS:
+        instr = make_instrument(iname)
+        track = Track(instr)
+        lo = R.pitch((instr.range[0].name, instr.range[0].octave))
+        hi = R.pitch((instr.range[1].name, instr.range[1].octave))
+        arg, expect = gate_argument(form, (name, octv))
+        in_range = all(lo <= R.pitch(n) <= hi for n in expect)
+        site = "Track(%s).add_notes(%s %s-%d, 4)" % (iname, form, name, octv)
+        S.trans(1)
+        try:
+            got = track.add_notes(arg, 4)
+            outcome = "accepted" if got is True else "returned %r" % (got,)
+        except InstrumentRangeError:
+            outcome = "range error"
+        except Exception as e:                                   # noqa
+            outcome = "raised " + type(e).__name__
+        S.outcome((iname, form, in_range, outcome))
+        want = "accepted" if in_range else "range error"
+        S.count("spelling_in_range" if in_range else "spelling_out_of_range")
+        if pitch in (lo, hi) and name != P.canonical(name)[0:1] and len(name) > 1:
+            S.count("spelling_accidental_at_range_end")
+        if outcome != want:
+            S.problem(site, want, outcome, detail={"pitch": pitch, "range": [lo, hi]})
+            continue
+        items = [(dur, content_of(c)) for _, dur, c in track.get_notes()]
+        want_items = [(4, sorted(expect, key=R.pitch))] if in_range else []
+        if items != want_items:
+            S.problem(site + " track content afterwards", want_items, items)
+
+
+def gen_spelling(shard):
+    iname, letter = shard
+    for name in P.names(2):
+        if name[0] != letter:
+            continue
+        for octv in range(0, 11):
+            yield [iname, name, octv]
+
+
+# ---------------------------------------------------------------------------------------
+# (vi) fills: long homogeneous / two-value runs through add_notes -- bar structure at the
+#      capacity frontier (all bars but the last exactly full, a bar opened only then)
+# ---------------------------------------------------------------------------------------
+FILL_METERS = [("C", (4, 4)), ("G", (3, 4)), ("f", (6, 8))]
+_FILL_MIN = [Fraction(1, 24)]
+
+
+def fill_values():
+    return [v[0] for v in V.VALUES if 1 / v[2] >= _FILL_MIN[0] and v[2] >= 1]
+
+
+def run_fill(case):
+    """case = [meter index, label a, i, label b]: i times a, then b until two bar lengths are
+    exceeded (or b is refused for room), through Track.add_notes on a track holding one empty bar."""
+    S = engine.S
+    mi, la, i, lb = case
+    key, meter = FILL_METERS[mi]
+    st = TState()
+    st.track.add_bar(Bar(key, meter))
+    st.ref.add_bar(T.RefBar(key, meter))
+    length = Fraction(meter[0], meter[1])
+    seq = [la] * i
+    n = 0
+    where = "fill %s x%d then %s in %d/%d: " % (la, i, lb, meter[0], meter[1])
+    while n < 1000:
+        lab = seq[n] if n < len(seq) else lb
+        label, vfloat, vexact = value_item(lab)
+        kind = ("str", "rest", "list")[n % 3]
+        content, expect = make_content(kind)
+        got = st.track.add_notes(content, vfloat)
+        want, opened = st.ref.add(vfloat, 1 / vexact, expect)
+        n += 1
+        if not want:
+            sync_after_refusal(st.track, st.ref, opened)
+        S.count("fill_accepted" if want else "fill_refused")
+        if got is not want:
+            S.problem(where + "add_notes #%d (%s) return value" % (n, label), want, got,
+                      detail={"bars": len(st.ref.bars), "last_bar_total": str(st.ref.bars[-1].total)})
+            S.trans(n)
+            return
+        if opened and want:
+            S.count("fill_bar_opened")
+            # a bar was opened: the previous one must be exactly full, in the library too
+            if not check_track(st.track, st.ref, S, where=where + "after add #%d: " % n, adopt=False):
+                S.trans(n)
+                return
+        if not want or (n > len(seq) and st.ref.total() > 2 * length):
+            break
+    check_track(st.track, st.ref, S, where=where + "at the end: ", adopt=False)
+    S.trans(n)
+    S.outcome((mi, len(st.ref.bars), tuple(len(b.entries) for b in st.ref.bars[:3])))
+
+
+def gen_fill(shard):
+    mi, la = shard
+    key, meter = FILL_METERS[mi]
+    length = Fraction(meter[0], meter[1])
+    a = V.BY_LABEL[la]
+    imax = int(length / (1 / a[2]))
+    for lb in fill_values():
+        for i in range(0, imax + 1):
+            yield [mi, la, i, lb]
+
+
+# ---------------------------------------------------------------------------------------
 # (iv) composition bfs
 # ---------------------------------------------------------------------------------------
 TRACK_RECIPES = [
@@ -842,6 +966,8 @@ def run_composition(case):
 
 
 CLAUSES = {
+    "spelling": run_spelling,
+    "fill": run_fill,
     "accumulate": run_accumulate,
     "gate": run_gate,
     "chords": run_chords,
@@ -866,12 +992,24 @@ def explore(ctx):
         shards = [(mi, ci) for mi in range(len(CHORD_METERS)) for ci in range(len(CHORD_LISTS))]
         ctx.bound("chords_cases", len(shards) * len(PREFILLS) * len(CHORD_PRODUCT_VALUES))
         ctx.product("chords", shards, gen_chords)
+    if ctx.want("spelling"):
+        ctx.product("spelling", [(i, L) for i in INSTRUMENTS if i != "none" for L in "CDEFGAB"], gen_spelling)
+    if ctx.want("fill"):
+        _FILL_MIN[0] = ctx.pick(Fraction(1, 24), Fraction(1, 128))
+        fm = ctx.pick([0], [0, 1, 2])
+        ctx.bound("fill_values", fill_values())
+        ctx.bound("fill_meters", [FILL_METERS[i][1] for i in fm])
+        ctx.product("fill", [(mi, la) for mi in fm for la in fill_values()], gen_fill)
     if ctx.want("composition"):
         d = ctx.pick(4, 5)
         ctx.bound("composition_depth", d)
         ctx.bfs("composition", CompositionSpec(), d)
     if not ctx.only:
         ctx.guard("accepted additions", ctx.counter("accepted"), 1000)
+        ctx.guard("spellings in range", ctx.counter("spelling_in_range"), 1000)
+        ctx.guard("spellings out of range", ctx.counter("spelling_out_of_range"), 1000)
+        ctx.guard("bars opened during fills", ctx.counter("fill_bar_opened"), 1000)
+        ctx.guard("fill placements refused for room", ctx.counter("fill_refused"), 100)
         ctx.guard("refused additions", ctx.counter("refused"), 1000)
         ctx.guard("bars opened by add_notes", ctx.counter("bar_opened_by_add"), 100)
         ctx.guard("refusals after opening an empty bar", ctx.counter("refused_after_opening_an_empty_bar"), 10)
